@@ -87,13 +87,13 @@ def exc_name(e):
 
 def distances(bits, rng, thorough):
     ds = {0, 4, -4, 8, 16, -16, 64}
-    for k in (bits - 3, bits - 2, bits - 1, bits):
+    for k in ((bits - 3, bits - 2, bits - 1, bits) if thorough else (bits - 2, bits - 1, bits)):
         if k < 2:
             continue
-        for d in (-8, -4, -2, 0, 2, 4, 8):
+        for d in ((-8, -4, -2, 0, 2, 4, 8) if thorough else (-4, -2, 0, 2, 4)):
             ds.add((1 << k) + d)
             ds.add(-(1 << k) + d)
-    for _ in range(16 if thorough else 4):
+    for _ in range(16 if thorough else 2):
         k = rng.randint(2, bits)
         ds.add(rng.randint(-(1 << k), 1 << k) & ~3)
         ds.add(rng.randint(-(1 << k), 1 << k) & ~1)
